@@ -133,12 +133,28 @@ def rule_lazy_adapt(ctx, R):
         okw = len(ws) == 1 and m(B("Add", F(Par(1), "pos"), K(1)), ws[0]["val"])
         ctx.check(okw, "LAZY-ADAPT", b, "pos-plus-one:" + v.tag, b.span, "pos must advance by exactly 1 per byte; writes %s" % [show(s["val"]) for s in ws])
         if okw and gets:
-            # only on the Some path: guarded by the Continue arm of the `?`
-            sw = switches_on(S.root, lambda d: d[0] == "discr" and d[1][0] == "call" and core.callee_base(d[1][1]) == "core::ops::Try::branch")
+            # only when a byte was read: guarded by the Some arm of the test on get()'s result (`?`, match, if let) and on every
+            # path from that arm to the return
+            gsite = (b.path, gets[0]["bb"])
+
+            def on_get(d):
+                if d[0] != "discr":
+                    return False
+                x = d[1]
+                if x[0] == "call" and isinstance(x[1], str) and core.callee_base(x[1]) == "core::ops::Try::branch":
+                    x = x[2][0]
+                return x[0] == "call" and x[3] == gsite
+            sw = switches_on(S.root, on_get)
             okp = len(sw) == 1
             if okp:
-                cont = [tb for val, tb in sw[0][1]["targets"] if val == 0]
-                brk = [tb for val, tb in sw[0][1]["targets"] if val == 1] or [sw[0][1]["otherwise"]]
+                d = sw[0][2]
+                via_try = d[1][0] == "call" and core.callee_base(d[1][1]) == "core::ops::Try::branch"
+                if via_try:
+                    cont = [tb for val, tb in sw[0][1]["targets"] if val == 0]
+                    brk = [tb for val, tb in sw[0][1]["targets"] if val == 1] or [sw[0][1]["otherwise"]]
+                else:
+                    some_, none_ = opt_arms(sw[0][1])
+                    cont, brk = [some_], [none_]
                 okp = bool(cont) and b.edge_guards((sw[0][0], cont[0]), ws[0]["bb"]) and ws[0]["bb"] not in b.reach(brk[0]) and \
                     all(r not in b.reach(cont[0], avoid_blocks=[ws[0]["bb"]]) for r in b.return_blocks()) and not b.in_cycle(ws[0]["bb"])
             ctx.check(okp, "LAZY-ADAPT", b, "advance-iff-some:" + v.tag, b.span, "pos advances exactly once when a byte is returned and not at the end")
